@@ -128,3 +128,92 @@ class CUnit:
     def arg_text(self, call, idx):
         args = call["inner"][1:]
         return self.text(args[idx]) if idx < len(args) else None
+
+
+class CEvalError(Exception):
+    pass
+
+
+def c_free_vars(node):
+    """Names of the variables / struct members an integer C expression reads (member access p->x is named `x`)."""
+    out = set()
+    todo = [node]
+    while todo:
+        n = todo.pop()
+        k = n.get("kind")
+        if k == "MemberExpr":
+            out.add(n.get("name"))
+            continue
+        if k == "DeclRefExpr":
+            out.add(n.get("referencedDecl", {}).get("name"))
+            continue
+        todo.extend(n.get("inner", []) or [])
+    return out
+
+
+def c_eval(node, env):
+    """Value of a side-effect-free integer C expression from the clang AST under `env` (name -> int). Comparison and
+    logical operators give 0 / 1 and && || ?: short-circuit; division truncates. Anything else raises CEvalError."""
+    k = node.get("kind")
+    inner = node.get("inner", []) or []
+    if k in ("ImplicitCastExpr", "ParenExpr", "CStyleCastExpr", "ConstantExpr"):
+        return c_eval(inner[-1], env)
+    if k == "IntegerLiteral":
+        return int(node["value"])
+    if k == "DeclRefExpr":
+        nm = node.get("referencedDecl", {}).get("name")
+        if nm not in env:
+            raise CEvalError(f"unbound {nm}")
+        return env[nm]
+    if k == "MemberExpr":
+        nm = node.get("name")
+        if nm not in env:
+            raise CEvalError(f"unbound {nm}")
+        return env[nm]
+    if k == "ConditionalOperator":
+        return c_eval(inner[1], env) if c_eval(inner[0], env) else c_eval(inner[2], env)
+    if k == "UnaryOperator":
+        v = c_eval(inner[0], env)
+        op = node.get("opcode")
+        if op == "!":
+            return 0 if v else 1
+        if op == "-":
+            return -v
+        if op == "+":
+            return v
+        if op == "~":
+            return ~v
+        raise CEvalError(f"unary {op}")
+    if k == "BinaryOperator":
+        op = node.get("opcode")
+        if op == "&&":
+            return 1 if (c_eval(inner[0], env) and c_eval(inner[1], env)) else 0
+        if op == "||":
+            return 1 if (c_eval(inner[0], env) or c_eval(inner[1], env)) else 0
+        a, b = c_eval(inner[0], env), c_eval(inner[1], env)
+        if op in ("<", "<=", ">", ">=", "==", "!="):
+            return 1 if {"<": a < b, "<=": a <= b, ">": a > b, ">=": a >= b, "==": a == b, "!=": a != b}[op] else 0
+        if op == "+":
+            return a + b
+        if op == "-":
+            return a - b
+        if op == "*":
+            return a * b
+        if op in ("/", "%"):
+            if b == 0:
+                raise CEvalError("division by zero")
+            q = abs(a) // abs(b)
+            q = q if (a >= 0) == (b >= 0) else -q
+            return q if op == "/" else a - q * b
+        if op == "<<":
+            return a << b
+        if op == ">>":
+            return a >> b
+        if op == "&":
+            return a & b
+        if op == "|":
+            return a | b
+        if op == "^":
+            return a ^ b
+        raise CEvalError(f"binary {op}")
+    raise CEvalError(f"node kind {k}")
